@@ -5,6 +5,6 @@ CONSTANTS
   MaxSteps = 2
   Record = FALSE
   Sample = 0
-INVARIANTS ViewIsJoin
+INVARIANTS ViewIsJoin JoinAgrees
 PROPERTIES TermMonotone LeaderKept
 CHECK_DEADLOCK FALSE
